@@ -1,8 +1,8 @@
 /-
-C08 — property theorems (see DESIGN.md §7 C08). First theorems; the refinement
-theorems are being added.
+C08 — `ska delete`: `delete_samples` refines column deletion on the plain table, its refusals, and
+the one-name-per-line file reader (see DESIGN.md §7 C08).
 -/
-import SkaModel.Spec.Abs
+import SkaModel.Lemmas.DeleteLemmas
 
 namespace SkaModel.Props.C08
 
@@ -13,5 +13,236 @@ theorem T08_refuse_count (a : Arr) (del : List String) (h : del = [] ∨ del.len
     a.deleteSamples del = none := by
   unfold Arr.deleteSamples
   rcases h with h | h <;> simp [h]
+
+/-! ### refusal, exactly -/
+
+/-- **T08_refuse.** `delete_samples` panics (no output) exactly when the list is empty, or has as many
+entries as the file has samples, or names a sample that is not in the file. Repeated entries count
+towards the length test: `["s1","s1"]` on a two-sample file is refused, `["s1","s1","s1"]` deletes
+`s1` (examples below). -/
+theorem T08_refuse (a : Arr) (del : List String) :
+    a.deleteSamples del = none ↔ (del = [] ∨ del.length = a.names.length ∨ ∃ n ∈ del, n ∉ a.names) := by
+  rw [deleteSamples_eq]
+  by_cases h1 : del = []
+  · simp [h1]
+  · by_cases h2 : del.length = a.names.length
+    · simp [h2]
+    · have hb : (del.isEmpty || del.length == a.names.length) = false := by
+        simp [h1, h2]
+      simp only [hb, Bool.false_eq_true, if_false, h1, h2, false_or]
+      by_cases h3 : (del.eraseDups.any (fun n => !a.names.contains n)) = true
+      · simp only [h3, if_true, true_iff]
+        rw [List.any_eq_true] at h3
+        obtain ⟨n, hn, hc⟩ := h3
+        refine ⟨n, List.mem_eraseDups.mp hn, ?_⟩
+        simpa using hc
+      · simp only [h3]
+        constructor
+        · intro h; cases h
+        · rintro ⟨n, hn, hc⟩
+          exfalso; apply h3
+          rw [List.any_eq_true]
+          exact ⟨n, List.mem_eraseDups.mpr hn, by simpa using hc⟩
+
+/-! ### the effect -/
+
+/-- the kept positions: exactly the positions of the names not requested, in increasing order
+(for files without repeated sample names) -/
+theorem T08_keepIdx (names del : List String) (hn : names.Nodup) :
+    (∀ i, i ∈ Table.keepIdx names del ↔ ∃ h : i < names.length, names[i] ∉ del)
+    ∧ (Table.keepIdx names del).Pairwise (· < ·)
+    ∧ (Table.keepIdx names del).map (fun i => names.getD i "") = names.filter (fun n => !del.contains n) :=
+  ⟨mem_keepIdx names del hn, keepIdx_sorted names del hn, keepIdx_names names del hn⟩
+
+/-- **T08_delete.** deleting existing samples (not none, not all by count) succeeds; the result is the
+plain table with those columns removed and the all-gap rows dropped; it is well formed, every row is
+present somewhere, the stored counts are the true counts, and the remaining names are the names not
+requested, in file order. (`abs`, `WF`, `RowsPresent`, `counts` hold without `Nodup`; the names
+equation needs it — see `ex_dupNames`.) -/
+theorem T08_delete (a : Arr) (del : List String) (ha : a.WF) (hn : a.names.Nodup)
+    (h1 : del ≠ []) (h2 : del.length ≠ a.names.length) (h3 : ∀ n ∈ del, n ∈ a.names) :
+    ∃ a', a.deleteSamples del = some a'
+      ∧ a'.abs = a.abs.deleteSamples del
+      ∧ a'.WF ∧ a'.RowsPresent
+      ∧ a'.counts = a'.variants.map (Arr.cellCount false)
+      ∧ a'.names = a.names.filter (fun n => !del.contains n)
+      ∧ a'.k = a.k ∧ a'.rc = a.rc ∧ a'.kBits = a.kBits := by
+  refine ⟨a.deleteResult del, ?_, deleteResult_abs a del, deleteResult_wf a del ha,
+    deleteResult_rowsPresent a del, deleteResult_counts a del, ?_, rfl, rfl, rfl⟩
+  · cases hd : a.deleteSamples del with
+    | none =>
+      rcases (T08_refuse a del).mp hd with h | h | ⟨n, hn', hc⟩
+      · exact absurd h h1
+      · exact absurd h h2
+      · exact absurd (h3 n hn') hc
+    | some a' =>
+      rw [deleteSamples_eq] at hd
+      split at hd
+      · cases hd
+      · split at hd
+        · cases hd
+        · exact hd.symm ▸ rfl
+  · rw [deleteResult_names, keepIdx_names a.names del hn]
+
+/-- whenever `delete_samples` returns, it returns the column-deleted table (no hypotheses) -/
+theorem T08_delete_abs (a a' : Arr) (del : List String) (h : a.deleteSamples del = some a') :
+    a'.abs = a.abs.deleteSamples del ∧ a'.RowsPresent ∧ a'.counts = a'.variants.map (Arr.cellCount false)
+      ∧ (a.WF → a'.WF) := by
+  rw [deleteSamples_eq] at h
+  split at h
+  · cases h
+  · split at h
+    · cases h
+    · cases h
+      exact ⟨deleteResult_abs a del, deleteResult_rowsPresent a del, deleteResult_counts a del,
+        deleteResult_wf a del⟩
+
+/-- `Modes.delete` is `delete_samples` -/
+theorem T08_mode (a : Arr) (del : List String) : Modes.delete a del = a.deleteSamples del := rfl
+
+/-! ### the name-list file -/
+
+/-- first whitespace-separated field of a line (`line.split_whitespace().next()`), on characters -/
+def firstField (cs : List Char) : List Char :=
+  (cs.dropWhile Char.isWhitespace).takeWhile (fun c => !c.isWhitespace)
+
+/-- one name per line: the first field of every line that has one -/
+def parseNames (lines : List String) : List String :=
+  lines.filterMap (fun l =>
+    let f := firstField l.toList
+    if f.isEmpty then none else some (String.ofList f))
+
+theorem takeWhile_all {α : Type} (p : α → Bool) (l : List α) (h : ∀ x ∈ l, p x = true) : l.takeWhile p = l := by
+  induction l with
+  | nil => rfl
+  | cons x l ih =>
+    rw [List.takeWhile_cons, if_pos (h x (List.mem_cons_self ..)), ih]
+    intro y hy; exact h y (List.mem_cons_of_mem _ hy)
+
+theorem dropWhile_all_append {α : Type} (p : α → Bool) (l r : List α) (h : ∀ x ∈ l, p x = true) :
+    (l ++ r).dropWhile p = r.dropWhile p := by
+  induction l with
+  | nil => rfl
+  | cons x l ih =>
+    rw [List.cons_append, List.dropWhile_cons, if_pos (h x (List.mem_cons_self ..)), ih]
+    intro y hy; exact h y (List.mem_cons_of_mem _ hy)
+
+/-- a line `lead ++ name ++ rest` with blank `lead`, a non-empty name free of white space, and `rest`
+empty or starting with white space, reads as `name` -/
+theorem firstField_padded (lead n rest : List Char) (hl : ∀ c ∈ lead, c.isWhitespace = true)
+    (hne : n ≠ []) (hn : ∀ c ∈ n, c.isWhitespace = false)
+    (hr : rest = [] ∨ ∃ c t, rest = c :: t ∧ c.isWhitespace = true) :
+    firstField (lead ++ (n ++ rest)) = n := by
+  unfold firstField
+  rw [dropWhile_all_append _ _ _ hl]
+  obtain ⟨c, t, rfl⟩ := List.exists_cons_of_ne_nil hne
+  have hc : c.isWhitespace = false := hn c (List.mem_cons_self ..)
+  rw [List.cons_append, List.dropWhile_cons]
+  simp only [hc, Bool.false_eq_true, if_false]
+  rw [← List.cons_append, List.takeWhile_append]
+  have hall : ∀ x ∈ c :: t, (fun c : Char => !c.isWhitespace) x = true := by
+    intro x hx; simp [hn x hx]
+  rw [takeWhile_all _ _ hall]
+  simp only [if_true]
+  rcases hr with rfl | ⟨d, u, rfl, hd⟩
+  · simp
+  · simp [hd]
+
+theorem firstField_name (n : List Char) (hne : n ≠ []) (hn : ∀ c ∈ n, c.isWhitespace = false) :
+    firstField n = n := by
+  have := firstField_padded [] n [] (by simp) hne hn (Or.inl rfl)
+  simpa using this
+
+/-- blank lines are skipped -/
+theorem parseNames_blank (l : String) (rest : List String) (h : ∀ c ∈ l.toList, c.isWhitespace = true) :
+    parseNames (l :: rest) = parseNames rest := by
+  have : firstField l.toList = [] := by
+    unfold firstField
+    have := dropWhile_all_append Char.isWhitespace l.toList [] h
+    rw [List.append_nil] at this
+    rw [this]; rfl
+  simp [parseNames, this]
+
+/-- **T08_names.** a file with one name per line (names non-empty, without white space) reads back as
+the list of names -/
+theorem T08_names (names : List String) (h : ∀ n ∈ names, n ≠ "" ∧ ∀ c ∈ n.toList, c.isWhitespace = false) :
+    parseNames names = names := by
+  induction names with
+  | nil => rfl
+  | cons n names ih =>
+    obtain ⟨h1, h2⟩ := h n (List.mem_cons_self ..)
+    have hne : n.toList ≠ [] := fun e => h1 (String.toList_eq_nil_iff.mp e)
+    have hf := firstField_name n.toList hne h2
+    have ih' := ih (fun m hm => h m (List.mem_cons_of_mem _ hm))
+    unfold parseNames at ih' ⊢
+    rw [List.filterMap_cons]
+    simp only [hf]
+    have : n.toList.isEmpty = false := by
+      cases hh : n.toList with
+      | nil => exact absurd hh hne
+      | cons _ _ => rfl
+    simp only [this, Bool.false_eq_true, if_false, String.ofList_toList]
+    rw [ih']
+
+theorem T08_names_id (names : List String) (h : ∀ n ∈ names, n ≠ "" ∧ ∀ c ∈ n.toList, c.isWhitespace = false) :
+    parseNames (names.map id) = names := by
+  rw [List.map_id]; exact T08_names names h
+
+/-- the same with surrounding blanks and trailing fields: line `i` is `lead ++ name ++ rest` -/
+theorem T08_names_padded (ls : List (List Char × String × List Char))
+    (h : ∀ t ∈ ls, t.2.1 ≠ "" ∧ (∀ c ∈ t.2.1.toList, c.isWhitespace = false) ∧
+      (∀ c ∈ t.1, c.isWhitespace = true) ∧ (t.2.2 = [] ∨ ∃ c u, t.2.2 = c :: u ∧ c.isWhitespace = true)) :
+    parseNames (ls.map (fun t => String.ofList (t.1 ++ (t.2.1.toList ++ t.2.2)))) = ls.map (·.2.1) := by
+  induction ls with
+  | nil => rfl
+  | cons t ls ih =>
+    obtain ⟨h1, h2, hlead, hrest⟩ := h t (List.mem_cons_self ..)
+    have hne : t.2.1.toList ≠ [] := fun e => h1 (String.toList_eq_nil_iff.mp e)
+    have hf : firstField (String.ofList (t.1 ++ (t.2.1.toList ++ t.2.2))).toList = t.2.1.toList := by
+      rw [String.toList_ofList]; exact firstField_padded t.1 t.2.1.toList t.2.2 hlead hne h2 hrest
+    have ih' := ih (fun m hm => h m (List.mem_cons_of_mem _ hm))
+    unfold parseNames at ih' ⊢
+    rw [List.map_cons, List.filterMap_cons]
+    simp only [hf]
+    have : t.2.1.toList.isEmpty = false := by
+      cases hh : t.2.1.toList with
+      | nil => exact absurd hh hne
+      | cons _ _ => rfl
+    simp only [this, Bool.false_eq_true, if_false, String.ofList_toList]
+    rw [ih']
+    rfl
+
+/-! ### non-vacuity -/
+
+def exA : Arr := { k := 3, rc := true, names := ["s1", "s2", "s3"], kmers := [5, 7, 9], variants := [[65, 67, 45], [45, 71, 45], [84, 84, 84]], counts := [2, 1, 3], kBits := 64 }
+
+example : exA.WF ∧ exA.names.Nodup := by decide
+
+/-- deleting `s2` drops row 7 (it was present in `s2` only) -/
+example : exA.deleteSamples ["s2"] = some
+    { k := 3, rc := true, names := ["s1", "s3"], kmers := [5, 9], variants := [[65, 45], [84, 84]],
+      counts := [1, 2], kBits := 64 } := by decide
+
+example : exA.abs.deleteSamples ["s2"] = { names := ["s1", "s3"], rows := [(5, [65, 45]), (9, [84, 84])] } := by
+  decide
+
+example : Table.keepIdx exA.names ["s2"] = [0, 2] := by decide
+
+-- refusals and repeated entries
+example : exA.deleteSamples [] = none := by decide
+example : exA.deleteSamples ["s1", "s2", "s3"] = none := by decide
+example : exA.deleteSamples ["s1", "zz"] = none := by decide
+/-- three entries on a three-sample file: refused although only one sample is named -/
+example : exA.deleteSamples ["s1", "s1", "s1"] = none := by decide
+/-- two entries naming one sample: that sample is deleted -/
+example : (exA.deleteSamples ["s1", "s1"]).map (·.names) = some ["s2", "s3"] := by decide
+
+/-- with a repeated sample name only its first column is removed, so the remaining names are not
+`names.filter (· ∉ del)`; the table equation of `T08_delete_abs` still holds -/
+def exDup : Arr := { exA with names := ["x", "x", "y"] }
+theorem ex_dupNames : (exDup.deleteSamples ["x"]).map (·.names) = some ["x", "y"]
+    ∧ exDup.names.filter (fun n => !["x"].contains n) = ["y"] := by decide
+
+example : parseNames ["s1", "  s2\tcomment", "", "s3 "] = ["s1", "s2", "s3"] := by decide
 
 end SkaModel.Props.C08
